@@ -416,6 +416,13 @@ func (n *node) concRm(g *types.Group, h uint64) (res string, badReads int64, fir
 	return res, atomic.LoadInt64(&bad), firstBad
 }
 
+func minInt(a, b int) int {
+	if a < b {
+		return a
+	}
+	return b
+}
+
 func listStr(l []string) string {
 	if len(l) == 0 {
 		return "none"
@@ -664,7 +671,7 @@ func (n *node) exec(line string) string {
 		return "unmodelled"
 	}
 	switch ws[0] {
-	case "add", "rmlast", "rmto", "restart", "crash", "conc", "concrm", "fault":
+	case "add", "rmlast", "rmto", "restart", "crash", "conc", "concrm", "fault", "sqlfault":
 		n.hist = append(n.hist, line)
 	}
 	if !n.alive {
@@ -747,6 +754,41 @@ func (n *node) exec(line string) string {
 		}
 		n.nRestart++
 		return n.start()
+	}
+	if ws[0] == "sqlfault" && len(ws) >= 4 {
+		// sqlfault ins|del <id> <mutator>: the sqlite statement for that group's row fails while the op runs.
+		// save/remove panic on it (process death): a start-up follows.
+		id, err := hx.UnHex(ws[2])
+		if err != nil || (ws[1] != "ins" && ws[1] != "del") {
+			return "bad-op"
+		}
+		if ws[3] == "rmto" && core.GetGroupChain().Count() >= 1<<32 {
+			return "unmodelled"
+		}
+		if e := armSQLFault(ws[1], id); e != nil {
+			return "PANIC arm:" + strings.ReplaceAll(e.Error(), " ", "_")
+		}
+		var ok bool
+		res := guard(func() string {
+			var r string
+			r, ok = n.mutate(ws[3:])
+			return r
+		})
+		dropSQLFault()
+		if strings.HasPrefix(res, "PANIC") {
+			if !strings.Contains(res, "injected_sql_fault") {
+				return res
+			}
+			res = "panic"
+		} else if !ok {
+			return "bad-op"
+		}
+		if preCycle() {
+			n.alive, n.booted = false, false
+			return "unmodelled"
+		}
+		n.nRestart++
+		return res + " / " + n.start()
 	}
 	if ws[0] == "fault" && len(ws) >= 3 {
 		// fault <j> <mutator>: the j-th physical write of the op returns an error (hook H2b) and the op carries on
@@ -1171,6 +1213,17 @@ func (g *gen) mutator(allowCrash bool) string {
 	default:
 		op = fmt.Sprintf("rmto %d", r.Intn(len(g.listed)+2))
 	}
+	if allowCrash && r.Chance(1, 14) && len(g.listed) > 0 {
+		kind := "del"
+		if strings.HasPrefix(op, "add") {
+			kind = "ins"
+		}
+		victim := g.listed[len(g.listed)-1-r.Intn(minInt(3, len(g.listed)))]
+		if kind == "ins" {
+			victim = strings.Fields(op)[1]
+		}
+		return fmt.Sprintf("sqlfault %s %s %s", kind, victim, op)
+	}
 	if allowCrash && faultHook && r.Chance(1, 12) {
 		return fmt.Sprintf("fault %d %s", r.Intn(5), op)
 	}
@@ -1379,6 +1432,66 @@ func (g *gen) concRm() {
 	g.emit("count")
 	g.emit("iter")
 	g.emit("dump")
+}
+
+// sqlFaults: a failing sqlite statement for each group touched by an add, a remove and a fork switch
+// that removes one, two and three groups (fault on the top, a middle and the lowest removed group),
+// each followed by queries, the mirror, a retry of the operation and a restart.
+func (g *gen) sqlFaults() int {
+	cnt := 0
+	after := func() {
+		g.resync()
+		if !g.alive {
+			return
+		}
+		g.probes()
+		g.emit("rmto 0")
+		g.resync()
+		g.probes()
+		g.emit("add a2 " + g.last() + " " + g.listed[0] + " 9")
+		g.resync()
+		g.probes()
+		g.emit("restart")
+		g.resync()
+		if g.alive {
+			g.probes()
+		}
+		cnt++
+	}
+	ids := []string{"a1", "b1b2", "c1c2c3", "d4"}
+	build := func(n int) {
+		g.pool = idPool
+		g.boot(1)
+		pre := "9001"
+		for i := 0; i < n; i++ {
+			g.emit(fmt.Sprintf("add %s %s 9001 %d", ids[i], pre, i+1))
+			pre = ids[i]
+		}
+		g.resync()
+	}
+	build(0)
+	g.emit("sqlfault ins a1 add a1 9001 9001 1")
+	after()
+	build(1)
+	g.emit("sqlfault ins e5e6 add b1b2 a1 9001 2") // fault armed for another group: nothing fails
+	after()
+	for n := 1; n <= 4; n++ {
+		for victim := 0; victim < n; victim++ {
+			hs := []int{0}
+			if n >= 3 {
+				hs = append(hs, n-2)
+			}
+			for _, h := range hs {
+				build(n)
+				g.emit(fmt.Sprintf("sqlfault del %s rmto %d", ids[victim], h))
+				after()
+			}
+		}
+	}
+	build(2)
+	g.emit("sqlfault del b1b2 rmlast")
+	after()
+	return cnt
 }
 
 // concStress: many rounds of two concurrent AddGroup calls on one chain, shrinking it in between.
@@ -1634,7 +1747,7 @@ func main() {
 	broken := false   // the current history already violated the property: later symptoms derive from it
 	// Watchdog: the real code has unbounded loops on states that break the invariant
 	// (refreshCache on a predecessor cycle, removeFromCommonAncestor after a count underflow).
-	// An op that runs longer than 20 s is reported and the process stops, instead of a 5-minute timeout.
+	// An op that runs longer than 90 s is reported and the process stops, instead of a 5-minute timeout.
 	var opStart int64
 	var curOp atomic.Value
 	curOp.Store("")
@@ -1642,16 +1755,16 @@ func main() {
 		for {
 			time.Sleep(time.Second)
 			t0 := atomic.LoadInt64(&opStart)
-			if t0 != 0 && time.Now().Unix()-t0 > 20 {
+			if t0 != 0 && time.Now().Unix()-t0 > 90 {
 				op, _ := curOp.Load().(string)
 				if mode == "search" {
-					v := viol{Key: "hang", Desc: "operation does not terminate within 20 s: " + op, History: append([]string{}, n.hist...)}
+					v := viol{Key: "hang", Desc: "operation does not terminate within 90 s: " + op, History: append([]string{}, n.hist...)}
 					b, _ := json.Marshal(v)
 					fmt.Println("VIOL " + string(b))
 					fmt.Printf("SEARCH {\"evaluations\":%d,\"mutators\":%d,\"boots\":%d,\"restarts\":%d,\"exhaustive_sequences\":0}\n", evals, mutators, n.nBoot, n.nRestart)
 					os.Exit(0)
 				}
-				fmt.Fprintln(os.Stderr, "c19 harness: op does not terminate within 20 s: "+op)
+				fmt.Fprintln(os.Stderr, "c19 harness: op does not terminate within 90 s: "+op)
 				os.Exit(4)
 			}
 		}
@@ -1684,7 +1797,7 @@ func main() {
 			broken, crashed, faulted = false, false, false
 		case "bootcrash":
 			broken, crashed, faulted = false, strings.HasPrefix(res, "crashed"), false
-		case "add", "rmlast", "rmto", "restart", "crash", "cadd", "fault":
+		case "add", "rmlast", "rmto", "restart", "crash", "cadd", "fault", "sqlfault":
 		default:
 			return res
 		}
@@ -1802,6 +1915,7 @@ func main() {
 		nEx = g.exhaustive(depth, true) // shortest histories first: they make the replay of a finding
 		g.bootCrashes()
 		g.writeFaults()
+		g.sqlFaults()
 		for i := 0; i < nSeq; i++ {
 			g.randomSequence(maxOps, i%3 != 0)
 		}
@@ -1822,6 +1936,7 @@ func main() {
 		if part == 0 {
 			g.bootCrashes()
 			g.writeFaults()
+			g.sqlFaults()
 		}
 		for i := 0; i < nSeq; i++ {
 			g.randomSequence(maxOps, i%3 != 0)
